@@ -175,17 +175,17 @@ var propRules = map[string]*PropSpec{
 		Technique:   techOwn,
 	},
 	"C18": {
-		Rules:       []string{"B1", "B2", "B5", "T1"},
-		Explanation: explBase + " C18: error propagation and byte accounting of the 64-bit writers/readers, bounded reads, and the bound on the bucket count before allocation.",
-		Decided:     []string{"no reader/writer error is dropped in roaring64 WriteTo/ReadFrom/FromUnsafeBytes and the inner 32-bit decoders", "returned counts depend on every inner count", "the key is read with io.ReadFull / bounds-checked Next", "decoded counts reach make() only behind an upper bound"},
-		NotDecided:  []string{"round-trip equality", "hang-freedom", "Validate of round-tripped bitmaps"},
+		Rules:       []string{"B1", "B2", "B5", "T1", "L1", "V1", "F3.64"},
+		Explanation: explBase + " C18: error propagation and byte accounting of the 64-bit writers/readers, bounded reads, the bound on the bucket count before allocation, agreement of writer/readers/size predictor on the framing, validator wiring, no empty bucket stored.",
+		Decided:     []string{"no reader/writer error is dropped in roaring64 WriteTo/ReadFrom/FromUnsafeBytes and the inner 32-bit decoders", "returned counts depend on every inner count", "the key is read with io.ReadFull / bounds-checked Next", "decoded counts reach make() only behind an upper bound", "writer, both readers and GetSerializedSizeInBytes agree on the framing (8-byte count, 4-byte key per bucket)", "roaring64 Validate checks every bucket, key order, table lengths and rejects empty buckets", "mutators never leave an empty bucket in the table (it would fail Validate after a round trip)"},
+		NotDecided:  []string{"round-trip equality", "hang-freedom", "that decoders reset a reused receiver"},
 		Technique:   techErr,
 	},
 	"C19": {
 		Rules:       []string{"PC1", "PC2", "B1", "P1", "A7"},
 		Explanation: explBase + " C19: every whole-index operation touches every plane including the sign plane; (un)marshal errors propagate; per-plane goroutines are joined.",
-		Decided:     []string{"Clone/NewBSIRetainSet, ClearValues, ParOr, RunOptimize, Equals, WriteTo/ReadFrom ... iterate over all len(bA) planes (sign plane included)", "Marshal/Unmarshal/WriteTo/ReadFrom propagate errors", "per-plane goroutines are paired with a WaitGroup", "Clone/NewBSIRetainSet copy planes only from freshly cloned bitmaps (no shared headers)"},
-		NotDecided:  []string{"two's-complement encode/decode", "ripple-carry addition", "auto-widening / sign extension arithmetic"},
+		Decided:     []string{"Clone/NewBSIRetainSet, ClearValues, ParOr, RunOptimize, Equals, WriteTo/ReadFrom ... iterate over all len(bA) planes (sign plane included)", "SetValue/SetMany/SetBigValue/SetBigMany write (set or clear) every plane", "widening copies the old sign plane into every new plane up to the new top plane", "Marshal/Unmarshal/WriteTo/ReadFrom propagate errors", "per-plane goroutines are paired with a WaitGroup", "Clone/NewBSIRetainSet copy planes only from freshly cloned bitmaps (no shared headers)"},
+		NotDecided:  []string{"two's-complement encode/decode", "ripple-carry addition", "how many planes a value needs"},
 		Technique:   "static analysis: loop-bound vs slice-length agreement over go/ssa; error-flow rules",
 	},
 	"C20": {
